@@ -73,6 +73,7 @@ type shard struct {
 	Aborted            int64               `json:"aborted"`
 	AbortSites         map[string]int64    `json:"abort_sites"`
 	TimingInconclusive int64               `json:"timing_inconclusive"`
+	HarnessProblems    int64               `json:"harness_problems"`
 	Exhaustive         map[string]bool     `json:"exhaustive"`
 	SubEvals           map[string]int64    `json:"sub_evals"`
 	Notes              []string            `json:"notes"`
@@ -389,10 +390,29 @@ func (s Sub[C]) Check(t *testing.T) {
 		c := s.Gen(rt)
 		k := Begin(s.Name)
 		if f := s.Run(c, k); f != nil {
+			if harnessProblem(s.Name, f) {
+				return
+			}
 			remember(s.Name, c, f)
 			rt.Fatalf("%s: %s", f.Clause, f.Message)
 		}
 	})
+}
+
+// harnessProblem: the case could not be set up or driven (clause "harness": a loop-back pair that did not come up on a starved
+// machine, a connect that failed before the scenario began). That says nothing about the property: the case is counted and noted,
+// never reported as a violation; the driver turns many of them into exit 2 (inconclusive).
+func harnessProblem(sub string, f *Failure) bool {
+	if f == nil || f.Clause != "harness" {
+		return false
+	}
+	S.mu.Lock()
+	S.HarnessProblems++
+	if len(S.Notes) < 8 {
+		S.Notes = append(S.Notes, "harness problem in "+sub+": "+f.Message)
+	}
+	S.mu.Unlock()
+	return true
 }
 
 // One executes a single concrete case (regression cases, exhaustive grids); a failure is reported at once.
@@ -400,6 +420,9 @@ func (s Sub[C]) One(t *testing.T, c C) bool {
 	t.Helper()
 	k := Begin(s.Name)
 	if f := s.Run(c, k); f != nil {
+		if harnessProblem(s.Name, f) {
+			return true
+		}
 		path := Report(s.Name, c, f)
 		t.Errorf("%s: %s: %s (replay %s)", s.Name, f.Clause, f.Message, path)
 		return false
